@@ -253,7 +253,15 @@ func (g *gen) next(in *inst) event {
 			d = 1
 		}
 		return event{"M", []string{fmt.Sprint(d), ""}}
-	case "D", "R", "K":
+	case "K":
+		// at most one node is being removed from the cluster at a time: with two, which one
+		// checkIfAnyPending marks "pending" follows Go's map iteration order
+		k := 1 + r.Pick(g.m)
+		for n := range in.coord.VerifState().RemovingNodes {
+			k = kOf(n)
+		}
+		return event{"K", []string{fmt.Sprint(k)}}
+	case "D", "R":
 		return event{kind, []string{fmt.Sprint(1 + r.Pick(g.m))}}
 	case "F":
 		return event{"F", []string{"-"}}
